@@ -1,9 +1,83 @@
 (* C10 -- Text is verbatim and whitespace control exact under any delimiter configuration.
-   Only statements here; proofs live in MJ.C10.Proofs. *)
+   Only statements here; proofs live in MJ.C10.Proofs.
+
+   Vocabulary (MJ.C10.Spec / Model / Domain):
+     unparse d segs       the template source of a segment list under delimiters d (fixed tag interiors)
+     tokenize c src       the model of the template-level tokenizer (lexer.rs), c = delimiters + settings
+     view its             the token stream as the specification sees it: non-empty text chunks, tag kinds
+     expected st segs     the specification: the texts with exactly the removals the property names; it never
+                          looks at delimiters
+     wf_case d keep segs  the decidable side condition: sane delimiters (Domain.wf_delims), texts that contain
+                          no start delimiter -- not even one running over into the following tag --, tags whose
+                          start delimiter is not the beginning of a longer one, raw content without an endraw
+                          tag, line statements at the start of a line
+     finder_ok d          find_start_marker returns the leftmost start delimiter (Proofs.finder_ok); proved for
+                          every well-formed configuration (start_marker_search).  For custom delimiters the search
+                          runs on the third-party Aho-Corasick automaton, whose enumeration order is SPECIFIED in
+                          Model.find_ac (by end position, longest first) and tied to the crate by the correspondence
+                          run; the loop of find_start_marker on top of it is modelled and proved *)
 From MJ Require Import Common.Base C10.Chars C10.Spec C10.Model C10.Domain C10.Proofs.
 
-(* The four defects of the unchanged code, on the model with the old behaviour switched on, and their
-   absence from the model of the fixed code. *)
+(* Every delimiter configuration, every well-formed segment list (texts, variable / block / comment tags with any
+   markers, raw blocks, line statements and line comments; no bound on sizes), all 8 settings, the three line-ending
+   styles: the tokenizer emits exactly the text chunks the rules name, and the tags in order. *)
+Theorem texts_verbatim : forall (d : delims) (w : wsconfig) (segs : list seg),
+  wf_case d (keep w) segs = true ->
+  exists its, tokenize {| dl := d; wsc := w; qk := fixed |} (unparse d segs) = (its, FOk) /\
+              view its = expected (st_of w) segs.
+Proof. exact texts_verbatim_proof. Qed.
+
+(* In terms of the rendered output (every variable tag prints "V", block tags print nothing): what the harness
+   observes through Environment::render_str. *)
+Theorem rendered_verbatim : forall (d : delims) (w : wsconfig) (segs : list seg),
+  wf_case d (keep w) segs = true ->
+  exists its, tokenize {| dl := d; wsc := w; qk := fixed |} (unparse d segs) = (its, FOk) /\
+              render_items (view its) = expected_output (st_of w) segs.
+Proof.
+  intros d w segs H. destruct (texts_verbatim_proof d w segs H) as (its & E & V).
+  exists its. split; auto. unfold expected_output. rewrite V. reflexivity.
+Qed.
+
+(* The right-hand side does not mention delimiters: rewriting the tags of a template to another delimiter
+   configuration does not change what the tokenizer hands to the parser. *)
+Theorem delims_irrelevant : forall (d1 d2 : delims) (w : wsconfig) (segs : list seg),
+  wf_case d1 (keep w) segs = true -> wf_case d2 (keep w) segs = true ->
+  view (fst (tokenize {| dl := d1; wsc := w; qk := fixed |} (unparse d1 segs))) =
+  view (fst (tokenize {| dl := d2; wsc := w; qk := fixed |} (unparse d2 segs))).
+Proof.
+  intros d1 d2 w segs H1 H2.
+  destruct (texts_verbatim_proof d1 w segs H1) as (i1 & E1 & V1).
+  destruct (texts_verbatim_proof d2 w segs H2) as (i2 & E2 & V2).
+  rewrite E1, E2. cbn [fst]. congruence.
+Qed.
+
+(* Text that merely looks like the default delimiters is plain text under a configuration in which it contains
+   no start delimiter: such a text alone is one chunk, verbatim (keep_trailing_newline on, so that nothing at all is
+   removed). *)
+Theorem lookalike_is_text : forall (d : delims) (w : wsconfig) (t : str),
+  keep w = true -> wf_case d true [Text t] = true ->
+  exists its, tokenize {| dl := d; wsc := w; qk := fixed |} t = (its, FOk) /\ view its = [EText t].
+Proof. exact lookalike_proof. Qed.
+
+(* The start-marker search -- memchr for the default delimiters, the loop of find_start_marker over the SPECIFIED
+   enumeration of the Aho-Corasick automaton otherwise -- returns the leftmost start delimiter, the longest one
+   at that position, for every well-formed delimiter configuration. *)
+Theorem start_marker_search : forall (d : delims), wf_delims d = true -> finder_ok d.
+Proof. exact finder_ok_all. Qed.
+
+(* No configuration that build() accepts can make the lexer panic, whatever the template source; a configuration
+   with an empty end delimiter is rejected (the defect fixed by 518ebef: it used to be accepted and the first
+   comment panicked in memstr). *)
+Theorem no_panic : forall (d : delims) (w : wsconfig) (src : str),
+  match tokenize_checked {| dl := d; wsc := w; qk := fixed |} src with
+  | Ok (_, e) => e <> FPanic
+  | Err code => code = E_InvalidDelimiter
+  | _ => False
+  end.
+Proof. exact no_panic_proof. Qed.
+
+(* The five defects of the unchanged code, on the model with the old behaviour switched on ([before_fixes]), and
+   their absence from the model of the fixed code. *)
 Theorem raw_lstrip_refuted_before_fix :
   let segs := [Raw MNone MNone [32; 32] MNone MNone] in
   wf_case default_delims false segs = true /\
@@ -12,4 +86,59 @@ Theorem raw_lstrip_refuted_before_fix :
   view (fst (tokenize (cfg_of default_delims ws_lstrip_only fixed) (unparse default_delims segs))) = [EText [32; 32]].
 Proof. exact raw_lstrip_refuted_before_fix_proof. Qed.
 
+Theorem lone_cr_lstrip_refuted_before_fix :
+  let segs := [Text [13; 32; 32]; Tag KBlock MNone MNone] in
+  wf_case default_delims false segs = true /\
+  view (fst (tokenize (cfg_of default_delims ws_lstrip_only before_fixes) (unparse default_delims segs))) = [EText [13; 32; 32]; EBlock] /\
+  expected st_lstrip_only segs = [EText [13]; EBlock] /\
+  view (fst (tokenize (cfg_of default_delims ws_lstrip_only fixed) (unparse default_delims segs))) = [EText [13]; EBlock].
+Proof. exact lone_cr_lstrip_refuted_before_fix_proof. Qed.
+
+Theorem line_crlf_refuted_before_fix :
+  let segs := [Line LStmt [] NlCRLF; Text [98]] in
+  wf_case line_delims false segs = true /\
+  view (fst (tokenize (cfg_of line_delims ws_lstrip_only before_fixes) (unparse line_delims segs))) = [EBlock; EText [10; 98]] /\
+  expected st_lstrip_only segs = [EBlock; EText [98]] /\
+  view (fst (tokenize (cfg_of line_delims ws_lstrip_only fixed) (unparse line_delims segs))) = [EBlock; EText [98]].
+Proof. exact line_crlf_refuted_before_fix_proof. Qed.
+
+Theorem trailing_line_comment_refuted_before_fix :
+  let segs := [Tag KBlock MNone MNone; Text [32]; Line LComment [] NlNone] in
+  wf_case line_delims false segs = true /\
+  view (fst (tokenize (cfg_of line_delims ws_none before_fixes) (unparse line_delims segs))) = [EBlock] /\
+  view (fst (tokenize (cfg_of line_delims ws_lstrip_only before_fixes) (unparse line_delims segs))) = [EBlock; EText [32]] /\
+  expected st_none segs = [EBlock; EText [32]] /\
+  view (fst (tokenize (cfg_of line_delims ws_none fixed) (unparse line_delims segs))) = [EBlock; EText [32]].
+Proof. exact trailing_line_comment_refuted_before_fix_proof. Qed.
+
+Theorem empty_end_refuted_before_fix :
+  tokenize_checked (cfg_of empty_end_delims ws_lstrip_only before_fixes) [60; 35; 32; 99] = Ok ([], FPanic) /\
+  tokenize_checked (cfg_of empty_end_delims ws_lstrip_only fixed) [60; 35; 32; 99] = Err E_InvalidDelimiter.
+Proof. exact empty_end_refuted_before_fix_proof. Qed.
+
+(* non-vacuity: a template with every kind of segment, markers, CRLF and a lone CR meets the hypotheses, under the
+   default delimiters and under a line-prefix configuration; the right-hand sides are computed *)
+Example texts_verbatim_witness :
+  let segs := [Text [97; 13; 10; 32; 32]; Tag KBlock MNone MMinus; Text [32; 10; 120]; Tag KVar MMinus MNone;
+               Raw MNone MPlus [13; 32; 123; 37; 32; 120; 32; 37; 125] MNone MNone; Text [13; 32; 9]; Tag KComment MNone MNone; Text [10]] in
+  let w := {| trim := true; lstrip_b := true; keep := false |} in
+  wf_case default_delims false segs = true /\
+  expected (st_of w) segs = [EText [97; 13; 10]; EBlock; EText [120]; EVar; EText [13; 32; 123; 37; 32; 120; 32; 37; 125]] /\
+  wf_case line_delims false [Text [97; 10; 32]; Line LStmt [32] NlCRLF; Text [98; 32]; Line LComment [] NlLF; Text [99]] = true /\
+  (* prefix-sharing starts <% <%= <%# with the shared end %>, default-looking text is plain text there *)
+  wf_case {| block_s := [60; 37]; block_e := [37; 62]; var_s := [60; 37; 61]; var_e := [37; 62]; com_s := [60; 37; 35]; com_e := [37; 62];
+             line_s := []; line_c := [] |} false
+          [Text [123; 123; 32; 120; 32; 125; 125; 10; 32]; Tag KBlock MNone MNone; Tag KVar MPlus MMinus; Text [32; 123; 37]; Tag KComment MMinus MNone] = true.
+Proof. vm_compute. repeat split. Qed.
+
+Print Assumptions texts_verbatim.
+Print Assumptions rendered_verbatim.
+Print Assumptions delims_irrelevant.
+Print Assumptions lookalike_is_text.
+Print Assumptions start_marker_search.
+Print Assumptions no_panic.
 Print Assumptions raw_lstrip_refuted_before_fix.
+Print Assumptions lone_cr_lstrip_refuted_before_fix.
+Print Assumptions line_crlf_refuted_before_fix.
+Print Assumptions trailing_line_comment_refuted_before_fix.
+Print Assumptions empty_end_refuted_before_fix.
